@@ -21,6 +21,14 @@ sys.path.insert(0, os.path.dirname(os.path.abspath(__file__)))
 import lib  # noqa: E402
 
 
+class ImplHang(Exception):
+    """the CPU budget of the whole check ran out"""
+
+
+def _budget_exceeded(signum, frame):
+    raise ImplHang("CPU budget of the check exceeded")
+
+
 def finding_matches(finding, failure):
     return finding.get("property") == failure.get("property") and finding.get("input") == failure.get("case")
 
@@ -39,6 +47,11 @@ def main() -> int:
         seed = 0
     mod = importlib.import_module(f"props.{pid.lower()}")
     res = lib.Result(pid, tier, seed)
+    # watchdog on the CPU time of this process (SIGVTALRM: independent of the SIGALRM per-call alarms of C15): a loop inside
+    # the library that never ends (the model proves termination) must not hang the check
+    import signal
+    signal.signal(signal.SIGVTALRM, _budget_exceeded)
+    signal.setitimer(signal.ITIMER_VIRTUAL, 900 if tier == "quick" else 4 * 3600)
 
     try:
         with lib.LeanLock():
@@ -149,11 +162,16 @@ def main() -> int:
         # raised in harness code, a missing private attribute the harness uses - is a tool failure, never a violation.
         tb = traceback.extract_tb(ex.__traceback__)
         inner = tb[-1].filename if tb else ""
+        in_lib = [f for f in tb if os.path.abspath(f.filename).startswith(os.path.join(os.path.abspath(lib.REPO), "han") + os.sep)]
+        if isinstance(ex, ImplHang) and in_lib:
+            inner = in_lib[-1].filename     # (the handler itself may be the innermost frame)
         if os.path.abspath(inner).startswith(os.path.join(os.path.abspath(lib.REPO), "han") + os.sep) \
                 and not isinstance(ex, (AttributeError, ImportError, NameError, TypeError)):
             payload = {"property": pid, "kind": "no-failing-input-found", "seed": seed, "tier": tier,
                        "proof_obligations_that_no_longer_check": [],
-                       "correspondence_disagreements": [f"the implementation raised {type(ex).__name__}: {ex} where the model raises nothing"],
+                       "correspondence_disagreements": [
+                           (f"the implementation did not return within the CPU budget of the check (stopped inside {inner})" if isinstance(ex, ImplHang)
+                            else f"the implementation raised {type(ex).__name__}: {ex} where the model raises nothing")],
                        "traceback": traceback.format_exc()[-3000:]}
             path = lib.write_replay(pid, payload)
             print(f"[{pid}] tier={tier} seed={seed} correspondence broken: the implementation raised {type(ex).__name__} inside {inner}")
